@@ -1,10 +1,210 @@
 import BFL.Driver.Proto
-/- Driver entries of this group (stub: no operation handled yet). -/
+import BFL.Core.GaussJordan
+import BFL.Model.GPF
+/-
+Driver entries for the Gaussian particle filter (C08).
+
+Field operations are executed exactly over `Rat`; `exp`/`log` go through `Float`
+(`Transc Rat` below: round the exact argument to the nearest double, apply the `Float` function,
+read the result back as the exact rational it is).  So positions `μ' + S z`, quadratic forms,
+determinants and inverses are exact, and only the transcendental functions are approximate.
+
+  gpfrun n k m eps  <initial set>  nsteps  <step>*      -> "ok" then, per step, the particle set
+     <set>   = states(n×k) means(n×k) covs(n×nk) logweights(k)         (column-major)
+     <step>  = P skip means covs
+             | C skip means covs  S(n×nk)  z(n×k)  valid <lik>  <trans>
+       means/covs = what the wrapped Gaussian step returned when run directly on the same beliefs
+                    (the value of the parameter `gp`/`gc` on this input, observed in C++);
+       S      = square-root factors (parameter `sq`), z = the normal draws (parameter `z`);
+       <lik>  = 0 l(k)                      scripted vector
+              | 1 c(k) a(n)                 l_i = c_i / (1 + |x_i − a|²)
+              | 2 scale H(m×n) R(m×m) y(m)  GaussianLikelihood with a linear sensor
+       <trans>= 0 A(n×n) b(n) c             t_i = c / (1 + |cur_i − A prev_i − b|²)  (harness-defined)
+              | 1 F(n×n) Q(n×n)             N(cur_i − F prev_i; 0, Q)  (WhiteNoiseAcceleration)
+-/
 namespace BFL.DriverGPF
 open BFL BFL.Proto
 
+/-- nearest-double (to within one ulp) value of a rational, for arguments of any size -/
+def ratToFloat (q : Rat) : Float :=
+  if q.num == 0 then 0.0 else
+  let a : Nat := q.num.natAbs
+  let b : Nat := q.den
+  let s : Int := (b.log2 : Int) + 64 - (a.log2 : Int)
+  let m : Nat := if s ≥ 0 then (a <<< s.toNat) / b else a / (b <<< (-s).toNat)
+  let f := Float.scaleB (Float.ofNat m) (-s)
+  if q.num < 0 then -f else f
+
+/-- a value no double can take: makes a non-finite `Float` result visible in the comparison -/
+def nonFinite : Rat := (10 : Rat) ^ 400
+
+def floatToRat (x : Float) : Rat :=
+  match ratOfBits x.toBits.toNat with
+  | some r => r
+  | none => nonFinite
+
+def viaFloat (f : Float → Float) (q : Rat) : Rat := floatToRat (f (ratToFloat q))
+
+scoped instance ratTransc : Transc Rat where
+  exp := viaFloat Float.exp
+  log := viaFloat Float.log
+  sqrt := viaFloat Float.sqrt
+  sin := viaFloat Float.sin
+  cos := viaFloat Float.cos
+  acos := viaFloat Float.acos
+  atan2 := fun y x => floatToRat (Float.atan2 (ratToFloat y) (ratToFloat x))
+  pi := floatToRat 3.14159265358979323846
+
+/-- certified exact inverse (`A X = 1 ∧ X A = 1` checked entry by entry) -/
+def invCert {m : Nat} (S : Mat Rat m m) : Option (Mat Rat m m) :=
+  match matInv? m S with
+  | none => none
+  | some X => let X := Mat.eval X; if certInv m S X then some X else none
+
+/-- the `inv` handed to the model: certified inverse, or a matrix of `nonFinite` -/
+def invOr {m : Nat} (S : Mat Rat m m) : Mat Rat m m :=
+  match invCert S with
+  | some X => X
+  | none => Mat.of (fun _ _ => nonFinite)
+
+def colOf {n k : Nat} (M : Mat Rat n k) (i : Fin k) : Vec Rat n := Vec.eval (Vec.of (fun r => M r i))
+
+def blockOf {n k : Nat} (M : Mat Rat n (n * k)) (i : Fin k) : Mat Rat n n :=
+  Mat.eval (Mat.of (fun r c => M r ⟨n * i.val + c.val, by
+    have hi := i.isLt; have hc := c.isLt
+    calc n * i.val + c.val < n * i.val + n := by omega
+      _ = n * (i.val + 1) := by rw [Nat.mul_succ]
+      _ ≤ n * k := Nat.mul_le_mul_left n hi⟩))
+
+instance {n : Nat} : Inhabited (Vec Rat n) := ⟨Vec.zero⟩
+instance {r c : Nat} : Inhabited (Mat Rat r c) := ⟨Mat.zero⟩
+
+/-- Table of the values of `f`, computed once.  It returns a *structure*: a definition returning a
+    function would be compiled with the index as an extra argument and rebuild the table per access.
+    Use as `(tab f).get`. -/
+def tab {β : Type} [Inhabited β] {k : Nat} (f : Fin k → β) : Vec β k := Vec.eval (Vec.of f)
+
+def readBeliefs (n k : Nat) : R (GM Rat n k) := do
+  let means ← matCM rat n k
+  let covs ← matCM rat n (n * k)
+  pure { mean := (tab (colOf means)).get, cov := (tab (blockOf covs)).get, weight := Vec.zero }
+
+def readSet (n k : Nat) : R (PSet Rat n k) := do
+  let states ← matCM rat n k
+  let b ← readBeliefs n k
+  let w ← vec rat k
+  pure { state := (tab (colOf states)).get, gm := { b with weight := Vec.eval w } }
+
+/-- compute every entry once (the model's results are closures) -/
+def force {n k : Nat} (p : PSet Rat n k) : PSet Rat n k :=
+  { state := (tab (fun i => Vec.eval (p.state i))).get
+    gm := { mean := (tab (fun i => Vec.eval (p.gm.mean i))).get
+            cov := (tab (fun i => Mat.eval (p.gm.cov i))).get
+            weight := Vec.eval p.gm.weight } }
+
+def outSet {n k : Nat} (p : PSet Rat n k) : List String :=
+  ((List.finRange k).flatMap fun i => outVec ratStr (p.state i)) ++
+  ((List.finRange k).flatMap fun i => outVec ratStr (p.gm.mean i)) ++
+  ((List.finRange k).flatMap fun i => outMatCM ratStr (p.gm.cov i)) ++
+  (outVec ratStr p.gm.weight)
+
+def normSq {n : Nat} (v : Vec Rat n) : Rat := Vec.dot v v
+
+/-- harness-defined likelihood `c_i / (1 + |x_i − a|²)` -/
+def ratLik {n k : Nat} (valid : Bool) (c : Vec Rat k) (a : Vec Rat n) (x : Fin k → Vec Rat n) : Bool × Vec Rat k :=
+  (valid, Vec.of fun i => c i / (1 + normSq ((x i).sub a)))
+
+/-- harness-defined transition density `c / (1 + |cur_i − A prev_i − b|²)` -/
+def ratTrans {n k : Nat} (A : Mat Rat n n) (b : Vec Rat n) (c : Rat) (prev cur : Fin k → Vec Rat n) : Vec Rat k :=
+  Vec.of fun i => c / (1 + normSq (((cur i).sub (A.mulVec (prev i))).sub b))
+
+def zeroSet {n k : Nat} : PSet Rat n k :=
+  { state := fun _ => Vec.zero, gm := { mean := fun _ => Vec.zero, cov := fun _ => Mat.zero, weight := Vec.zero } }
+
+def readLik (n k m : Nat) (valid : Bool) : R ((Fin k → Vec Rat n) → Bool × Vec Rat k) := do
+  let kind ← nat
+  match kind with
+  | 0 => do
+    let l ← vec rat k
+    pure (fun _ => (valid, l))
+  | 1 => do
+    let c ← vec rat k
+    let a ← vec rat n
+    pure (ratLik valid c a)
+  | 2 => do
+    let scale ← rat
+    let H ← matCM rat m n
+    let Rm ← matCM rat m m
+    let y ← vec rat m
+    pure (fun x => if valid then gpfGaussLik invOr scale H Rm y x else (false, Vec.zero))
+  | _ => failure
+
+def readTrans (n k : Nat) : R ((Fin k → Vec Rat n) → (Fin k → Vec Rat n) → Vec Rat k) := do
+  let kind ← nat
+  match kind with
+  | 0 => do
+    let A ← matCM rat n n
+    let b ← vec rat n
+    let c ← rat
+    pure (ratTrans A b c)
+  | 1 => do
+    let F ← matCM rat n n
+    let Q ← matCM rat n n
+    pure (gpfGaussTrans invOr F Q)
+  | _ => failure
+
+def readEvent (n k m : Nat) : R (GpfEvent Rat n k) := do
+  let t ← tok
+  let skip ← bool
+  let table ← readBeliefs n k
+  let step : GStep Rat n k := gaussDispatch skip (fun _ _ => table)
+  match t with
+  | "P" => pure (.predict step zeroSet)
+  | "C" => do
+    let S ← matCM rat n (n * k)
+    let z ← matCM rat n k
+    let valid ← bool
+    let lik ← readLik n k m valid
+    let trans ← readTrans n k
+    pure (.correct step (tab (blockOf S)).get (tab (colOf z)).get lik trans zeroSet)
+  | _ => failure
+
+def gpfrun : R String := do
+  let n ← nat; let k ← nat; let m ← nat
+  let eps ← rat
+  let p0 ← readSet n k
+  let ns ← nat
+  let es ← listOf ns (readEvent n k m)
+  done
+  -- the history, one forced particle set per step (each step is `gpfStep`, i.e. `gpfRun` unfolded)
+  let sets := (es.foldl (fun (acc : PSet Rat n k × List (PSet Rat n k)) e =>
+      let q := force (gpfStep eps invOr acc.1 e)
+      (q, q :: acc.2)) (force p0, [])).2.reverse
+  -- every inverse the proposal density needed must have been certified
+  let certOk := (es.zip sets).all fun (e, q) =>
+    match e with
+    | .predict _ _ => true
+    | .correct .. => (List.finRange k).all fun i => (invCert (q.gm.cov i)).isSome
+  if !certOk then pure "inv-cert-fail" else
+  pure (join ("ok" :: sets.flatMap outSet))
+
+/-- `gpfdens n x μ P` : log-density and density of the model (used on its own by the oracle tests) -/
+def gpfdens : R String := do
+  let n ← nat
+  let x ← vec rat n
+  let mu ← vec rat n
+  let P ← matCM rat n n
+  done
+  match invCert P with
+  | none => pure "inv-cert-fail"
+  | some _ =>
+    pure (join ["ok", ratStr (gpfQuad invOr x mu P), ratStr (lapDet n P),
+                ratStr (gpfLogDensity invOr x mu P), ratStr (gpfDensity invOr x mu P)])
+
 def handle (op : String) (args : List String) : Option String :=
   match op with
+  | "gpfrun" => some ((run gpfrun args).getD "bad-args")
+  | "gpfdens" => some ((run gpfdens args).getD "bad-args")
   | _ => none
 
 end BFL.DriverGPF
